@@ -136,10 +136,14 @@ def run_one(it):
                 if it["via"] == "protocol_split":
                     # the 1 MiB packet split of HsmsProtocol._process_send_queue
                     okk = True
-                    for off in range(0, len(data), 1024 * 1024):
-                        if not conn.send_data(data[off:off + 1024 * 1024]):
-                            okk = False
-                            break
+                    try:
+                        for off in range(0, len(data), 1024 * 1024):
+                            if not conn.send_data(data[off:off + 1024 * 1024]):
+                                okk = False
+                                break
+                    except Exception as exc:  # noqa: BLE001   (an exception is not a report of success)
+                        okk = False
+                        rec["send_exception"] = type(exc).__name__
                 else:
                     try:
                         okk = bool(conn.send_data(data))
@@ -164,7 +168,12 @@ def run_one(it):
                 break
             if done["v"] and it.get("then") == "close":
                 break                  # the application closes at once; what is in flight is read afterwards, until EOF
-            if it["pace"] == "immediate":
+            if it.get("stall") and not rec.get("stalled"):
+                s.settle()
+                s.advance(it["stall"])
+                rec["stalled"] = True
+                rec["queued_during_stall"] = len(peer.rx)
+            if it["pace"] == "immediate" or it.get("stall"):
                 s.settle()
                 stream += peer.read()
             elif it["pace"] == "byte":
@@ -396,7 +405,14 @@ def run_proto_multi(it):
                 rec["send_exception"] = type(exc).__name__
 
         for k in range(len(sizes)):
-            simrt.Thread(target=sender, args=(k,), name=f"sender{k}").start()
+            if it.get("late_send") is not None and k == len(sizes) - 1:
+                # the last sender starts only when the connection is already going down (its close handling under way)
+                def later(k=k):
+                    simrt.time_shim.sleep(it["early"] + it["late_send"])
+                    sender(k)
+                simrt.Thread(target=later, name=f"sender{k}").start()
+            else:
+                simrt.Thread(target=sender, args=(k,), name=f"sender{k}").start()
         stream = bytearray()
         guard = 0
         closed_by_peer = False
@@ -499,6 +515,7 @@ def run_proto_multi(it):
     s = simrt.run(main, seed=it["seed"], policy=it["policy"], switch_prob=0.25, max_vtime=1e5, wall_timeout=45, line_cost=1e-3,
                   line_funcs=[tc.TcpConnection._start_receiver, tc.TcpConnection.disconnect],
                   wake_lag=(("secsgem_HSMS_protocol_receiver",), 0.5, 0.3) if it.get("lag") else None,
+                  line_lag=((tc.TcpConnection._TcpConnection__receiver_thread,), 0.5, 0.05) if it.get("late_send") is not None else None,
                   event_funcs=[(cp.Protocol.send_message, "Call", "call", ex_call), (cp.Protocol.send_message, "Got", "return", ex_got),
                                (bsi.BlockSendInfo.resolve, "RRes", "call", ex_res), (hp.HsmsProtocol._on_disconnecting, "Notice", "call", ex_live),
                                (pd.ProtocolDispatcher.stop, "Finish", "return", ex_live)])
@@ -506,6 +523,15 @@ def run_proto_multi(it):
     rec.pop("_owner", None)
     rec.pop("_tracing", None)
     rec["tev"] = [{"e": e["e"], "s": e.get("s", 0), "ok": bool(e.get("ok", False))} for e in s.events]
+    # a send that did not return: was its block taken from the queue (then it must have been resolved), or was it queued when the
+    # receiver loop had already ended (it then waits for the next connection: outside C09 / C10, counted as an observation)?
+    unret = [k for k in range(len(it["bodies"])) if k not in rec.get("returned", [])]
+    taken = {e["s"] for e in rec["tev"] if e["e"] == "RGet"}
+    resolved = {e["s"] for e in rec["tev"] if e["e"] == "RRes"}
+    rec["taken_never_resolved"] = sorted(sd for sd in taken - resolved if sd <= len(it["bodies"]) and (sd - 1) in unret)
+    rec["queued_for_the_next_connection"] = [k + 1 for k in unret if (k + 1) not in taken]
+    if s.outcome == "done" and "returned" in rec:
+        rec["done"] = not rec["taken_never_resolved"]
     bad_ex = [e for e in s.events if e.get("extract_error")]
     if bad_ex:
         rec.setdefault("errors", []).append(("extract", bad_ex[0]["extract_error"]))
@@ -532,6 +558,9 @@ def multi_items(rng, n, first_id):
                       "policy": rng.choice(["fifo", "random", "pct"]), "lag": i % 2 == 0})
         if i % 4 == 0:
             items[-1].update({"stop_at": 0, "early": rng.choice([0.01, 0.05, 0.2]), "lag": True, "then": "peer-leaves-right-after-the-sends-were-queued"})
+        if i % 4 == 2:
+            items[-1].update({"stop_at": 0, "early": 0.05, "lag": False, "late_send": rng.choice([0.1, 0.12, 0.15, 0.15, 0.17, 0.19, 0.2, 0.2, 0.21, 0.3]),
+                              "then": "peer-leaves-one-send-starts-while-the-connection-goes-down"})
     return items
 
 
@@ -602,6 +631,13 @@ def run(ctx: Ctx):
                             items.append({"id": tid, "side": side, "cap": cap, "sizes": [max(1, x) for x in sizes], "pace": pace, "short": short,
                                           "via": "protocol_split" if max(sizes) > 1024 * 1024 else "send_data", "then": then,
                                           "seed": rng.randrange(1 << 30), "policy": rng.choice(["fifo", "random"])})
+    # the peer does not read at all for 8 / 70 s (longer than T8 and T3) while accepted bytes wait in the sender's socket, then drains
+    for side in ("server", "client"):
+        for cap, sizes in ((4096, [3000]), (65536, [50000]), (65536, [40000, 20000]), (65536, [3 * 65536])):
+            for stall in (8.0, 70.0):
+                tid += 1
+                items.append({"id": tid, "side": side, "cap": cap, "sizes": sizes, "pace": f"stall{int(stall)}", "stall": stall, "short": "none", "via": "send_data",
+                              "then": "drain", "seed": rng.randrange(1 << 30), "policy": rng.choice(["fifo", "random"])})
     recs = [r_ for batch in pmap(run_batch, chunks(items, 28)) for r_ in batch]
     # through the protocol layer: messages around and above the 1 MiB packet size, peer leaving after k bytes
     MIB = 1024 * 1024
@@ -620,7 +656,7 @@ def run(ctx: Ctx):
     # several application threads sending at the same time, the peer leaving in between (hand-over model: SendHandover)
     from . import sendq_model
     sendq_model.check(ctx, wd, "success")
-    mitems = multi_items(rng, 32 if ctx.quick else 320, tid + 1)
+    mitems = multi_items(rng, 64 if ctx.quick else 480, tid + 1)
     tid += len(mitems)
     mrecs = [r_ for batch in pmap(run_proto_multi_batch, chunks(mitems, 4)) for r_ in batch]
     recs += mrecs
@@ -638,13 +674,19 @@ def run(ctx: Ctx):
     ctx.traces += len(recs)
     ctx.evaluations += len(recs)
     ctx.nontrivial += len({(r_["side"], r_["cap"], tuple(r_["sizes"]), r_["pace"], r_["short"], r_.get("then")) for r_ in recs})
+    ctx.extra["observation_sends_queued_after_the_receiver_loop_ended"] = sum(len(r_.get("queued_for_the_next_connection", [])) for r_ in recs)
     ctx.extra["closed_with_bytes_in_flight"] = sum(1 for r_ in recs if r_.get("then") == "close" and r_.get("in_flight_at_close", 0) > 0)
     for r_ in recs:
         v = verd[r_["id"]]
         if r_["id"] in (3, 40):
             ctx.sample({k: r_[k] for k in ("side", "cap", "sizes", "pace", "short", "sends")} | {"received_runs": r_["received"][:6]})
         big = max(r_["sizes"]) > r_["cap"]
-        if r_["outcome"] != "done" or not r_.get("done", False):
+        if r_.get("taken_never_resolved"):
+            ctx.violation({"check": "tcp", "clause": "send-neither-succeeded-nor-failed", "side": r_["side"], "sizes": r_["sizes"], "then": r_.get("then"),
+                           "senders": r_["taken_never_resolved"], "sched": [r_["seed"], r_["policy"]],
+                           "what": f"{len(r_['sizes'])} thread(s) sending, {r_.get('then')}: the block of sender {r_['taken_never_resolved']} was taken from the send queue "
+                                   "but never resolved: send_message neither reports success nor failure, it never returns"})
+        elif r_["outcome"] != "done" or not r_.get("done", False):
             ctx.violation({"check": "tcp", "clause": "send-did-not-finish", "side": r_["side"], "cap": r_["cap"], "sizes": r_["sizes"], "pace": r_["pace"],
                            "short": r_["short"], "exceeds_buffer": big, "outcome": r_["outcome"], "wedge": r_.get("wedge"), "errors": r_.get("errors"),
                            "what": f"{r_['side']} cap={r_['cap']} sizes={r_['sizes']} pace={r_['pace']}: sending did not finish ({r_['outcome']})"})
@@ -659,7 +701,7 @@ def run(ctx: Ctx):
             ctx.violation({"check": "tcp", "clause": "disable-did-not-return", "side": r_["side"], "cap": r_["cap"],
                            "what": f"{r_['side']}: disable() after the transfer did not return"})
     ctx.rule = ("scenarios = {server, client} x buffer capacity {1, 7, 4 KiB, 64 KiB} x message sizes {1, cap-1, cap, cap+1, 3*cap+2, "
-                "1 MiB +-1, 3 MiB} x reader pacing {immediate, delayed, small reads} x short-write policy {none, half, random} x "
+                "1 MiB +-1, 3 MiB} x reader pacing {immediate, delayed, small reads, nothing for 8 s / 70 s and then everything} x short-write policy {none, half, random} x "
                 "{peer drains while the connection stays up, disable() right after the last send and the peer reads until EOF, "
                 "disable() while a send is blocked on a full socket (peer not reading) and the peer reads until EOF afterwards} + messages of "
                 "1 MiB -14 .. 5 MiB through the real HsmsProtocol send path (packet split), the peer leaving after k bytes; 1-3 threads sending 0 B .. 200 KB "
